@@ -114,7 +114,8 @@ Record pre := mkPre {
   p_scan_need_write : bool;      (* scan found something to record *)
   p_blockmax : N;                (* parity_allocated_size after the scan *)
   p_used : N;                    (* parity_used_size after the scan *)
-  p_parity_access : list bool;   (* per level: the parity file can be created/opened *)
+  p_parity_access : list bool;   (* per level: parity_create succeeds (sync, fix): creates the file when absent *)
+  p_parity_open : list bool;     (* per level: parity_open succeeds (scrub; check and excluded levels of fix go on without) *)
   p_parity_blocks : list N;      (* per level: size on disk / block size (absent = 0) *)
   p_parity_resize : list bool;   (* per level: size on disk <> blockmax * block size: parity_chsize changes the file *)
   p_parity_modified : list bool; (* per level: parity_chsize reports is_modified (resulting size <> size recorded in the
@@ -226,7 +227,7 @@ Definition sync_body (o : opts) (p : pre) : list effect * exitclass :=
 
 Definition scrub_body (o : opts) (p : pre) : list effect * exitclass :=
   if p_array_empty p then ([], ExRefused)                                             (* scrub.c:816-821 *)
-  else if negb (forallb (fun l => nth_bool (p_parity_access p) l false) (levels p)) then ([], ExRefused)  (* 874 *)
+  else if negb (forallb (fun l => nth_bool (p_parity_open p) l false) (levels p)) then ([], ExRefused)    (* 874 *)
   else
     let nw := p_read_need_write p || negb (is0 (p_scrub_stripes p)) in
     ((if nw || o_force_content_write o then all_content p else []),
